@@ -42,12 +42,12 @@ theorem forall_decodeObjs {Q2 : String → Val → Prop} {Q3 : String → FileOb
 
 /-! ### one secret object -/
 
-theorem secret_obj_clean {P : String → Prop} (hx : P extKey) {p : TPath} {kvs : KVs} (h : ObjOkF P xValue kvs) {o : FileObj}
+theorem secret_obj_clean {P : String → Prop} (hx : P extKey) (hemp : P "") (hnil : P "<nil>") (hcut : CutClosed P) {p : TPath} {kvs : KVs} (h : ObjOkF P xValue kvs) {o : FileObj}
     (hd : decodeSecret (pxVal p (.map kvs)) = .ok o) : o.CleanBut P ∧ o.marshallContent = false := by
   simp only [pxVal, decodeSecret] at hd
   have hraw := RawOk_pxObj (c := xValue) hx xValue_ne_extKey p (isUserDefined p) h (ObjOkF_extrasOf h _)
   obtain ⟨hr, he⟩ := RawOk_hook hraw
-  refine ⟨CleanBut_decodeFields (.inl rfl) hr he hd, ?_⟩
+  refine ⟨CleanBut_decodeFields hemp hnil hcut (.inl rfl) hr he hd, ?_⟩
   unfold decodeFields at hd
   split at hd
   · split at hd
@@ -85,20 +85,21 @@ theorem lookup_pxKVs (p : TPath) (skip : Bool) {k : String} (hk : isExtKey k = f
 def CfgLink (P : String → Prop) (kvs : KVs) : Prop :=
   (∀ v, Val.lookup "content" kvs = some v → AllStr P v) ∨ (∃ e, Val.lookup "environment" kvs = some (.str e) ∧ e ≠ "")
 
-theorem CfgLink_resolveObj {P : String → Prop} (env : Env) {kvs : KVs} (h : AllStrKV P kvs)
-    (hne : Val.lookup "environment" kvs ≠ some (.str "")) :
+theorem CfgLink_resolveObj {P : String → Prop} (env : Env) {kvs : KVs} (h : AllStrKV P kvs) :
     ∀ kvs', resolveObj "content" env (.map kvs) = .map kvs' → CfgLink P kvs' := by
   intro kvs' hr
   simp only [resolveObj] at hr
   split at hr
   · rename_i e he
     split at hr
-    · cases hr
-      right
-      refine ⟨e, ?_, ?_⟩
-      · rw [lookup_insert_ne (by decide)]; exact he
-      · intro h0; subst h0; exact hne he
     · cases hr; left; intro v hl; exact AllStrKV_lookup h hl
+    · rename_i hne
+      split at hr
+      · cases hr
+        right
+        refine ⟨e, ?_, hne⟩
+        rw [lookup_insert_ne (by decide)]; exact he
+      · cases hr; left; intro v hl; exact AllStrKV_lookup h hl
   · cases hr; left; intro v hl; exact AllStrKV_lookup h hl
 
 theorem CfgLink_setNameKVs {P : String → Prop} {pname n : String} {kvs : KVs} (h : CfgLink P kvs) : CfgLink P (setNameKVs pname n kvs) := by
@@ -113,7 +114,7 @@ theorem isExtKey_content : isExtKey "content" = false := by decide
 theorem isExtKey_environment : isExtKey "environment" = false := by decide
 theorem isExtKey_Content : isExtKey "Content" = false := by decide
 
-theorem config_obj_clean {P : String → Prop} (hx : P extKey) {p : TPath} {kvs : KVs} (h : ObjOkF P "content" kvs)
+theorem config_obj_clean {P : String → Prop} (hx : P extKey) (hemp : P "") (hnil : P "<nil>") (hcut : CutClosed P) {p : TPath} {kvs : KVs} (h : ObjOkF P "content" kvs)
     (hl : CfgLink P kvs) {o : FileObj} (hd : decodeConfig (pxVal p (.map kvs)) = .ok o) :
     o.CleanBut P ∧ (o.environment ≠ "" ∨ OptP P o.content) := by
   simp only [pxVal, decodeConfig] at hd
@@ -133,7 +134,7 @@ theorem config_obj_clean {P : String → Prop} (hx : P extKey) {p : TPath} {kvs 
     · rw [lookup_insert_self] at hm
       cases hm
       exact hexA
-  refine ⟨CleanBut_decodeFields (.inr rfl) hraw hclean hd, ?_⟩
+  refine ⟨CleanBut_decodeFields hemp hnil hcut (.inr rfl) hraw hclean hd, ?_⟩
   -- what the decode read for `environment` and `content`
   have lk : ∀ k, k ≠ extKey → isExtKey k = false →
       Val.lookup k (withExtras (extrasOf (isUserDefined p) kvs) (pxKVs p (isUserDefined p) kvs)) =
@@ -163,12 +164,17 @@ theorem config_obj_clean {P : String → Prop} (hx : P extKey) {p : TPath} {kvs 
             cases v <;> simp at h4
             · exact .inl h4
             · subst h4; exact .inr (by simpa [AllStr] using hcl)
+            · subst h4; exact .inr (by simpa [AllStr] using hcl)
         · rename_i hnone
           unfold strField at h4
           split at h4
           · cases h4; exact .inl rfl
           · cases h4; exact .inl rfl
           · rename_i s hs
+            cases h4
+            rw [lookup_withExtras_ne (by decide)] at hs
+            exact .inr (by simpa [AllStr] using ObjOkF_lookup_ne hkeep hs (by decide))
+          · rename_i i hs
             cases h4
             rw [lookup_withExtras_ne (by decide)] at hs
             exact .inr (by simpa [AllStr] using ObjOkF_lookup_ne hkeep hs (by decide))
